@@ -5,6 +5,7 @@ import (
 	"crypto/sha256"
 	"encoding/json"
 	"fmt"
+	"net/http"
 	"net/url"
 
 	opl "github.com/ory/keto/proto/ory/keto/opl/v1alpha1"
@@ -258,9 +259,42 @@ func runC17(env *Env, rc *RunCtx) {
 				rq = ReadReq{Kind: "hostile-" + h.Transport, Content: h.String()}
 			}
 		}
+		// one request in ten is a write (PUT / PATCH / DELETE on the admin path)
+		// sent to the READ port or to the syntax port: whatever those ports answer,
+		// nothing is written
+		var smuggle func() Resp
+		if hostile == nil && t.Bool(1, 10) {
+			h := []http.Handler{sys.ReadH, sys.OPLH}[t.Choose(2)]
+			port := "read"
+			if h == sys.OPLH {
+				port = "syntax"
+			}
+			x := dom.Tuple(t)
+			if len(m.T) > 0 && t.Bool(1, 2) {
+				x = m.T[t.Choose(len(m.T))]
+			}
+			switch t.Choose(3) {
+			case 0:
+				b, _ := json.Marshal(x.API())
+				smuggle = func() Resp { return sys.REST(h, "PUT", "/admin/relation-tuples", nil, b) }
+				rq = ReadReq{Kind: "write-verb-on-" + port + "-port", Content: "PUT /admin/relation-tuples " + x.String()}
+			case 1:
+				b, _ := json.Marshal([]any{map[string]any{"action": []string{"insert", "delete"}[t.Choose(2)], "relation_tuple": x.API()}})
+				smuggle = func() Resp { return sys.REST(h, "PATCH", "/admin/relation-tuples", nil, b) }
+				rq = ReadReq{Kind: "write-verb-on-" + port + "-port", Content: "PATCH /admin/relation-tuples " + x.String()}
+			default:
+				smuggle = func() Resp {
+					return sys.REST(h, "DELETE", "/admin/relation-tuples", url.Values{"namespace": {x.NS}}, nil)
+				}
+				rq = ReadReq{Kind: "write-verb-on-" + port + "-port", Content: "DELETE /admin/relation-tuples?namespace=" + x.NS}
+			}
+			rc.Count("probe_write_verb_on_read_port", 1)
+		}
 		theHub.Arm(0, L2None)
 		var resp Resp
-		if hostile != nil {
+		if smuggle != nil {
+			resp = smuggle()
+		} else if hostile != nil {
 			resp = sys.doHostile(*hostile)
 		} else {
 			resp = sys.DoRead(rq)
